@@ -24,6 +24,7 @@ class Check:
     def __init__(self, acc):
         self.acc = acc
         self.events = None
+        self.raw = None
 
     def on_commit(self, sim, con):
         self.acc.count("commits_checked")
@@ -36,8 +37,16 @@ class Check:
     def after_event(self, machine, ev, before, after, info, sim):
         last = info["last"]
         for kind, msg in refmodel.bad_transitions(last["log"]):
-            self.acc.violation(f"C09|{kind}|{msg.split(': ', 1)[1]}",
-                               {"what": msg, "events": self.events}, {"events": self.events})
+            key = f"C09|{kind}|{msg.split(': ', 1)[1]}"
+            node = msg.split(": ", 1)[0]
+            if kind == "step-transition" and node.startswith("step:") and self.raw:
+                label = node[5:]
+                ndef = sum(1 for e in self.raw if e[0] == "req" and e[2][0] == "define_step" and e[2][2] == label)
+                if ndef >= 2 and self.raw[-1][0] == "exit" and self.raw[-1][1] == label:
+                    # the completion of a command that was started under an earlier definition of
+                    # the step is applied to the step after its creator re-declared it
+                    key += "|completion-of-a-run-started-before-the-step-was-redeclared"
+            self.acc.violation(key, {"what": msg, "events": self.events}, {"events": self.events})
         reply = last["reply"]
         if isinstance(reply, opx.RemoteFailure) and reply.qualname in opx.INTERNAL_ERRORS:
             self.acc.violation(f"C09|internal-error|{reply.qualname}|{ev[2][0] if ev[0] == 'req' else ev[0]}",
@@ -65,7 +74,18 @@ CORE_MENU = [opx.MENU_STATIC[0], opx.MENU_STATIC[4], opx.MENU_STATIC[8], opx.MEN
 CYCLE_MENU = [opx.MENU_STEPS[2], opx.MENU_STEPS[11], opx.MENU_AMEND[2], opx.MENU_AMEND[4]]
 
 
+# a step that defines steps itself, re-declared by its creator with the same or another signature
+# after the creator was restarted: partial and full recycling of nested creators
+NESTED_MENU = [opx.MENU_STEPS[5], opx.MENU_STEPS[4], opx.MENU_STEPS[2]]
+
+
 def machine_for(kind, check):
+    if kind == "nested":
+        return opx.Machine(menu=NESTED_MENU, check=check, targets_menu=((),), exits=["ok"], fs_events=False)
+    if kind.startswith("pair:"):
+        i, j = (int(x) for x in kind.split(":")[1:])
+        menu = [opx.FULL_MENU[i], opx.FULL_MENU[j]]
+        return opx.Machine(menu=menu, check=check, targets_menu=((),), exits=["ok"], fs_events=False)
     if kind == "cycle":
         m = opx.Machine(menu=CYCLE_MENU, check=check, targets_menu=((),), exits=["ok"], fs_events=False)
         return m
@@ -80,7 +100,17 @@ def jobs(tier, seed):
     out = []
     full_depth, core_depth = (2, 4) if tier == "quick" else (3, 6)
     cycle_depth = 6 if tier == "quick" else 8
-    for kind, depth in (("full", full_depth), ("core", core_depth), ("cycle", cycle_depth)):
+    kinds = [("full", full_depth), ("core", core_depth), ("cycle", cycle_depth), ("nested", cycle_depth)]
+    if tier == "thorough":
+        # every pair of requests of the full menu as an alphabet of its own, searched deep
+        import itertools
+
+        n = len(opx.FULL_MENU) - len(opx.MENU_MALFORMED)
+        kinds += [(f"pair:{i}:{j}", 6) for i, j in itertools.combinations(range(n), 2)]
+    for kind, depth in kinds:
+        if kind.startswith("pair:"):
+            out.append({"kind": kind, "root": [("start", ())], "depth": depth})
+            continue
         m = machine_for(kind, None)
         st = m.replay([("start", ())])
         for ev in st["enabled"]:
@@ -105,6 +135,7 @@ def run_job(spec):
 
     def replay(events):
         check.events = [repr(e) for e in events]
+        check.raw = list(events)
         return orig_replay(events)
 
     m.replay = replay
